@@ -57,7 +57,7 @@ def _msg():
 
 def _password():
     ascii_pw = st.text("abcdefghijklmnopqrstuvwxyzABCDEFGHIJKLMNOPQRSTUVWXYZ0123456789 !#%&()*+,-.:;<=>?@[]^_{|}", min_size=1, max_size=20)
-    utf8_pw = st.text(st.characters(blacklist_categories=("Cc", "Cs", "Cn", "Co", "Zl", "Zp"), min_codepoint=0x80, max_codepoint=0x2FFFF), min_size=1, max_size=12)
+    utf8_pw = st.text(st.characters(exclude_categories=("Cc", "Cs", "Cn", "Co", "Zl", "Zp"), min_codepoint=0x80, max_codepoint=0x2FFFF), min_size=1, max_size=12)
     return st.one_of(st.none(), ascii_pw, utf8_pw, st.tuples(ascii_pw, utf8_pw).map("".join))
 
 
@@ -441,13 +441,15 @@ def run_ec_sign(case, o: Oracle) -> None:
     with o.spsdk("ecdsa_sound", "negatives"):
         if data:
             o.check("ecdsa_sound", pub.verify_signature(sig, _flip(data, case["flip_m"]), **kw) is False, "modified_message_accepted")
-        o.check("ecdsa_sound", pub.verify_signature(sig, data + b"\0", **kw) is False or prehashed, "extended_message_accepted")
+        if not prehashed:
+            o.check("ecdsa_sound", pub.verify_signature(sig, data + b"\0", **kw) is False, "extended_message_accepted")
         o.check("ecdsa_sound", pub.verify_signature(_flip(sig, case["flip_s"]), data, **kw) is False, "modified_signature_accepted", "bit %d" % (case["flip_s"] % (8 * len(sig))))
         oc = case["other_curve"]
         od = case["other"] % (pk.CURVES[oc].n - 1) + 1
         if not (oc == curve and od == d):
             opub = PublicKeyEcc(K.ec_key(oc, od).public_key())
-            o.check("ecdsa_sound", opub.verify_signature(sig, data, **kw) is False, "other_key_accepted", "%s d=%x" % (oc, od))
+            okw = dict(kw, algorithm=_alg(eff_alg))  # same parameters: the other key's own default hash may differ
+            o.check("ecdsa_sound", opub.verify_signature(sig, data, **okw) is False, "other_key_accepted", "%s d=%x" % (oc, od))
     # ---- signature provider (normalises to raw r||s unless another encoding is asked for)
     if case["sp"] and not prehashed:
         from spsdk.crypto.signature_provider import PlainFileSP, SignatureProvider
@@ -604,7 +606,8 @@ def run_ec_refsig(case, o: Oracle) -> None:
     with o.spsdk("refsig_sound", "negatives"):
         o.check("refsig_sound", pub.verify_signature(_flip(raw, case["flip_s"]), data, **kw) is False, "modified_raw_accepted")
         o.check("refsig_sound", pub.verify_signature(_flip(der, case["flip_s"]), data, **kw) is False, "modified_der_accepted")
-        o.check("refsig_sound", pub.verify_signature(raw, data + b"x", **kw) is False or prehashed, "other_message_accepted")
+        if not prehashed:
+            o.check("refsig_sound", pub.verify_signature(raw, data + b"x", **kw) is False, "other_message_accepted")
         o.check("refsig_sound", pub.verify_signature(s.to_bytes(size, "big") + r.to_bytes(size, "big"), data, **kw) is False or r == s, "swapped_rs_accepted")
     lzr, lzs = size - (r.bit_length() + 7) // 8, size - (s.bit_length() + 7) // 8
     o.label("part:ec_refsig", "curve:" + curve, "mode:" + mode, "alg:" + alg, "der_sig")
@@ -796,12 +799,13 @@ def run_rsa_sign(case, o: Oracle) -> None:
     with o.spsdk("rsa_sound", "negatives"):
         if data:
             o.check("rsa_sound", pub.verify_signature(sig, _flip(data, case["flip_m"]), **kw) is False, "modified_message_accepted")
-        o.check("rsa_sound", pub.verify_signature(sig, data + b"\0", **kw) is False or prehashed, "extended_message_accepted")
+        if not prehashed:
+            o.check("rsa_sound", pub.verify_signature(sig, data + b"\0", **kw) is False, "extended_message_accepted")
         o.check("rsa_sound", pub.verify_signature(_flip(sig, case["flip_s"]), data, **kw) is False, "modified_signature_accepted")
         if dict(case["other"]) != dict(desc):
             opub = PublicKeyRsa(K.key_from_desc(case["other"]).public_key())
             o.check("rsa_sound", opub.verify_signature(sig, data, **kw) is False, "other_key_accepted", repr(case["other"]))
-    if case["sp"] and not prehashed:
+    if case["sp"] and not prehashed and bits == 2048:  # loading an RSA key costs 40-300 ms
         from spsdk.crypto.signature_provider import PlainFileSP
 
         E = _enc()
@@ -838,6 +842,14 @@ def _cli_case():
         "use_sp": st.booleans(),
         "flip_m": st.integers(0, 1 << 24),
     })
+
+
+def _fresh(name: str) -> str:
+    """Scratch path that does not exist (the commands refuse to overwrite without --force)."""
+    p = _scratch(name)
+    if os.path.exists(p):
+        os.remove(p)
+    return p
 
 
 def _invoke(args):
@@ -880,8 +892,8 @@ def run_cli(case, o: Oracle) -> None:
     if case["op"] == "convert":
         if dst == "RAW" and not is_ec:
             dst = "DER"
-        out = _scratch("cli-out.bin")
-        back = _scratch("cli-back.pem")
+        out = _fresh("cli-out.bin")
+        back = _fresh("cli-back.pem")
         with o.spsdk("cli_convert", "%s%s" % (dst, ":puk" if puk else "")):
             _invoke(["key", "convert", "-e", dst, "-i", prv_path, "-o", out] + (["-p"] if puk else []))
             with open(out, "rb") as f:
@@ -904,7 +916,7 @@ def run_cli(case, o: Oracle) -> None:
         msg, alg, pss = bytes(case["msg"]), case["alg"], bool(case["pss"]) and not is_ec
         eff_alg = alg or (DEFAULT_ALG[desc["curve"]] if is_ec else "sha256")
         sig_enc = case["sig_enc"]
-        data_path, sig_path, pub_path = _scratch("cli-data.bin"), _scratch("cli-sig.bin"), _scratch("cli-pub.pem")
+        data_path, sig_path, pub_path = _scratch("cli-data.bin"), _fresh("cli-sig.bin"), _scratch("cli-pub.pem")
         with open(data_path, "wb") as f:
             f.write(msg)
         with open(pub_path, "wb") as f:
